@@ -160,6 +160,17 @@ def resolveVal (ns : List Node) (c : Ctx) (k : Int) (v : Val) : Val × Bool := r
 def resolveVals (ns : List Node) (k : Int) (vs : List Val) : List Val × Bool := resolveValsT threading ns k vs
 def resolveParts (ns : List Node) (cx : Bool) (k : Int) (ps : List Part) : List Part × Bool := resolvePartsT threading ns cx k ps
 
+/-- a reader of the class the code does NOT have (`Generated.readerState = []`): it remembers the reference resolved last,
+    keyed on the number as written, and answers from that memo — kept as a model of what any such state does to the
+    increment (the memo survives from one reference to the next and from one file to the next).
+    Returns the instance id the reference is bound to and the memo afterwards. -/
+def resolveRefMemo (ns : List Node) (k : Int) (memo : Option (Int × Int)) (r : Int) : Option Int × Option (Int × Int) :=
+  match memo with
+  | some (w, t) =>
+    if w = r then (some t, memo)
+    else if (find ns (r + k)).isSome then (some (r + k), some (r, r + k)) else (none, memo)
+  | none => if (find ns (r + k)).isSome then (some (r + k), some (r, r + k)) else (none, memo)
+
 def update (ns : List Node) (id : Int) (n' : Node) : List Node := ns.map (fun n => if n.inst.id = id then n' else n)
 
 /-- the comment in front of an instance reaches `ReadInstance` (→ `AddP21Comment`); in a working-session file it stands
